@@ -150,6 +150,21 @@ class Corpus:
     def env(s, family, version):
         return s.envs[f'{family}:{version}']
 
+    def env_for(s, obj):
+        """Environment of names visible to `obj`: same-family objects whose versions cover every version of obj
+        (versioning-with-tags.md: 'as specific or less specific')."""
+        env = Env(obj.family, 'obj:' + obj.name)
+
+        def cov(cand):
+            if obj.family == 'login':
+                return all(('*' in cand.versions) or (v in cand.versions) for v in obj.versions if v != '*') and \
+                    (('*' not in obj.versions) or ('*' in cand.versions))
+            return all(any(covers(u, v) for u in cand.versions) for v in obj.versions)
+        for o in s.objs:
+            if o.family == obj.family and cov(o):
+                env.add(o)
+        return env
+
     def tests(s):
         """Yield (env, container Obj, raw test) for every test x flavour it applies to."""
         for t in s.raw_tests:
